@@ -113,6 +113,22 @@ func (b *Built) Ref3(n *Node, p vec3) (float64, bool) {
 	return v, ok
 }
 
+// InvXform3 maps p through the inverse of the rigid motion of an xform3 node.
+func InvXform3(n *Node, p [3]float64) [3]float64 { return invXform3(n, p) }
+
+// InvXform2 maps p through the inverse of the rigid motion of an xform2 node.
+func InvXform2(n *Node, p [2]float64) [2]float64 {
+	q := vec2{p[0] - n.P[1], p[1] - n.P[2]}
+	q = rot2(q, -n.P[0])
+	switch n.I[0] {
+	case 1:
+		q[1] = -q[1]
+	case 2:
+		q[0] = -q[0]
+	}
+	return q
+}
+
 // Ref2 evaluates the 2D program node n at p (see Ref3).
 func (b *Built) Ref2(n *Node, p vec2) (float64, bool) {
 	v, ok := b.ref2(n, p)
